@@ -32,7 +32,16 @@ fn hash_order_hostile(r: &mut Rng) -> String {
     let names = ["alpha", "bravo", "charlie", "delta", "echo", "foxtrot", "golf"];
     let k = r.range(2, 6);
     let mut t = String::new();
-    match r.below(3) {
+    match r.below(4) {
+        3 => {
+            // attribute names that differ in CASE only, on one node and on one edge: the printed order is by name, exactly
+            let variants = ["name", "Name", "NAME", "nAme", "naMe", "namE"];
+            t.push_str("(module) @_m {\n  node n\n  node e\n  edge n -> e\n");
+            for (i, v) in variants[..k].iter().enumerate() {
+                t.push_str(&format!("  attr (n) {} = {}\n  attr (n -> e) {} = {}\n", v, i, v, i));
+            }
+            t.push_str("}\n");
+        }
         0 => {
             t.push_str("(module) @m {\n");
             for n in &names[..k] {
@@ -117,12 +126,31 @@ fn transcript(text: &str, src: &str, globals: &[(String, tree_sitter_graph::grap
                 let cfg = RunCfg { lazy, globals: globals.to_vec(), outer_globals: vec![], debug: None, cancel_at: None };
                 let ir = run_impl(&file, &tree, src, &info, &cfg);
                 out.push_str(&format!("|{}:{}:{:x}", lazy, ir.outcome.to_text(), hash_of(&ir.graph.map(|g| g.to_text()))));
+                // the PRINTED graph too (attribute lines are sorted by name): it must not depend on the process either
+                out.push_str(&format!(":pp={:x}", hash_of(&exec_pretty(&file, &tree, src, globals, lazy))));
                 // the rendered message too (statement texts, values): it must not depend on what ran before
                 out.push_str(&format!(":msg={}", exec_message(&file, &tree, src, globals, lazy)));
             }
             out
         }
     }
+}
+
+fn exec_pretty(file: &tree_sitter_graph::ast::File, tree: &tree_sitter::Tree, src: &str, globals: &[(String, tree_sitter_graph::graph::Value)], lazy: bool) -> String {
+    let r = std::panic::catch_unwind(std::panic::AssertUnwindSafe(|| {
+        let functions = tree_sitter_graph::functions::Functions::stdlib();
+        let mut gl = tree_sitter_graph::Variables::new();
+        for (k, v) in globals {
+            let _ = gl.add(tree_sitter_graph::Identifier::from(k.as_str()), v.clone());
+        }
+        let config = tree_sitter_graph::ExecutionConfig::new(&functions, &gl).lazy(lazy);
+        match file.execute(tree, src, &config, &tree_sitter_graph::NoCancellation) {
+            // syntax-node values print with their position, not their address: the text is process-independent
+            Ok(g) => format!("{}", g.pretty_print()),
+            Err(_) => String::new(),
+        }
+    }));
+    r.unwrap_or_else(|_| "panic".to_string())
 }
 
 fn exec_message(file: &tree_sitter_graph::ast::File, tree: &tree_sitter::Tree, src: &str, globals: &[(String, tree_sitter_graph::graph::Value)], lazy: bool) -> String {
@@ -144,6 +172,8 @@ fn exec_message(file: &tree_sitter_graph::ast::File, tree: &tree_sitter::Tree, s
 /// `tsg-verif c12-child <seed> <n> [only]`: prints one transcript line per case (or only that of case `only`,
 /// run alone in this fresh process)
 pub fn child(seed: u64, n: usize, only: Option<usize>) {
+    // the printed graph is part of the transcript: no sets of several syntax nodes (their order follows addresses; DESIGN 0.6)
+    crate::gen::dsl::NO_SYNTAX_NODE_SETS.with(|c| c.set(true));
     let root = Rng::new(seed);
     let pool = pool();
     for pi in 0..n {
@@ -171,6 +201,7 @@ pub fn run(rep: &mut Report, tier: &str, seed: u64) {
     let (n_programs, threads, procs) = if tier == "thorough" { (600, 16, 6) } else { (60, 4, 3) };
     // one function table for every execution of this process, the threads included (a caller builds `Functions::stdlib()` once)
     crate::execx::SHARE_FUNCTIONS.store(true, std::sync::atomic::Ordering::SeqCst);
+    crate::gen::dsl::NO_SYNTAX_NODE_SETS.with(|c| c.set(true));
     // processes
     {
         let exe = std::env::current_exe().expect("current exe");
